@@ -580,6 +580,17 @@ func lemmaReencodeREMB(raw []byte) (p, q ReceiverEstimatedMaximumBitrate, err, e
 	return p, q, nil, nil, err3
 }
 
+// lemmaReencodeTWCCPre (C09): what TransportLayerCC.Marshal requires in order not to panic (non-nil deltas, chunks of
+// the two known kinds with at most 14 symbols) is established by TransportLayerCC.Unmarshal for every accepted input:
+// the call below is checked against Marshal's preconditions.
+func lemmaReencodeTWCCPre(raw []byte) (p TransportLayerCC, err, err2 error) {
+	if err = p.Unmarshal(raw); err != nil {
+		return
+	}
+	_, err2 = p.Marshal()
+	return p, nil, err2
+}
+
 // RawPacket (C02, C09): the packet is the frame itself, so both directions are identities on the bytes.
 func lemmaRoundTripRaw(p RawPacket) (q RawPacket, err, err2 error) {
 	b, err := p.Marshal()
